@@ -457,6 +457,93 @@ func c19MoreTargets() []c19Target {
 			}
 			return c19Res{ok: true}
 		}})
+	// ... and the hedged signers / provers: a stream that ends early is an error and no signature, and the failed
+	// call leaves NOTHING behind - ordinary calls made afterwards (verification of a good signature, deterministic
+	// signing, the retry with a working reader) give exactly what they gave before the failure.
+	add(c19Target{name: "ed25519.Sign(added randomness: entropy stream), then ordinary use", size: 32, anyLength: true,
+		gen: func(c *c19Ctx) []byte {
+			c.priv = c.g.EdKey()
+			c.aux["msg"] = c.g.Msg()
+			c.aux["variant"] = []byte{byte(c.g.T.W(3))}
+			return c.g.Bytes(32)
+		},
+		try: func(c *c19Ctx, prev, b []byte) c19Res {
+			msg := c.aux["msg"]
+			mk := func(hedged bool) *ed25519.Options {
+				o := &ed25519.Options{AddedRandomness: hedged}
+				switch c.aux["variant"][0] {
+				case 1:
+					o.Context = "c19 entropy stream"
+				case 2:
+					o.Hash, o.Context = crypto.SHA512, "ph"
+				}
+				return o
+			}
+			m := msg
+			if c.aux["variant"][0] == 2 {
+				d := sha512.Sum512(msg)
+				m = d[:]
+			}
+			pub := ed25519.PublicKey(c.priv[32:])
+			good := append(clone(b), prev...)[:32]
+			detSig, err0 := c.priv.Sign(nil, m, mk(false))
+			first, err1 := c.priv.Sign(bytes.NewReader(good), m, mk(true))
+			if err0 != nil || err1 != nil {
+				return c19Res{bad: "Sign failed on a well-formed request"}
+			}
+			sig, err := c.priv.Sign(bytes.NewReader(b), m, mk(true))
+			if len(b) < 32 {
+				if err == nil || sig != nil {
+					return c19Res{ok: true, bad: fmt.Sprintf("Sign with added randomness succeeded on an entropy stream of %d bytes", len(b))}
+				}
+			} else if err != nil {
+				return c19Res{bad: "Sign failed on a sufficient entropy stream: " + err.Error()}
+			}
+			// ordinary use afterwards
+			if !ed25519.VerifyWithOptions(pub, m, detSig, mk(false)) {
+				return c19Res{bad: "after the call a signature that verified before is rejected"}
+			}
+			again, err2 := c.priv.Sign(nil, m, mk(false))
+			if err2 != nil || !bytes.Equal(again, detSig) {
+				return c19Res{bad: "after the call deterministic signing gives another signature than before"}
+			}
+			retry, err3 := c.priv.Sign(bytes.NewReader(good), m, mk(true))
+			if err3 != nil || !bytes.Equal(retry, first) {
+				return c19Res{bad: "after the call signing with the same 32 entropy bytes gives another signature than a first attempt"}
+			}
+			return c19Res{ok: len(b) >= 32}
+		}})
+	add(c19Target{name: "ecvrf.ProveWithAddedRandomness(entropy stream), then ordinary use", size: 32, anyLength: true,
+		gen: func(c *c19Ctx) []byte { c.priv = c.g.EdKey(); c.aux["msg"] = c.g.Msg(); return c.g.Bytes(32) },
+		try: func(c *c19Ctx, prev, b []byte) c19Res {
+			alpha := c.aux["msg"]
+			pub := ed25519.PublicKey(c.priv[32:])
+			good := append(clone(b), prev...)[:32]
+			detPi := ecvrf.Prove(c.priv, alpha)
+			first, err1 := ecvrf.ProveWithAddedRandomness(bytes.NewReader(good), c.priv, alpha)
+			if err1 != nil {
+				return c19Res{bad: "ProveWithAddedRandomness failed on a well-formed request"}
+			}
+			pi, err := ecvrf.ProveWithAddedRandomness(bytes.NewReader(b), c.priv, alpha)
+			if len(b) < 32 {
+				if err == nil || pi != nil {
+					return c19Res{ok: true, bad: fmt.Sprintf("ProveWithAddedRandomness succeeded on an entropy stream of %d bytes", len(b))}
+				}
+			} else if err != nil {
+				return c19Res{bad: "ProveWithAddedRandomness failed on a sufficient entropy stream: " + err.Error()}
+			}
+			if ok, _ := ecvrf.Verify(pub, detPi, alpha); !ok {
+				return c19Res{bad: "after the call a proof that verified before is rejected"}
+			}
+			if !bytes.Equal(ecvrf.Prove(c.priv, alpha), detPi) {
+				return c19Res{bad: "after the call deterministic proving gives another proof than before"}
+			}
+			retry, err3 := ecvrf.ProveWithAddedRandomness(bytes.NewReader(good), c.priv, alpha)
+			if err3 != nil || !bytes.Equal(retry, first) {
+				return c19Res{bad: "after the call proving with the same 32 entropy bytes gives another proof than a first attempt"}
+			}
+			return c19Res{ok: len(b) >= 32}
+		}})
 	// provers take a private key: the error-returning forms must return an error for a malformed key
 	add(c19Target{name: "ecvrf.ProveWithAddedRandomness(private key)", size: 64,
 		gen: func(c *c19Ctx) []byte { c.aux["msg"] = c.g.Msg(); return clone(c.g.EdKey()) },
